@@ -10,6 +10,8 @@ THEOREMS = ["IwModel.C03." + t for t in (
     "sblk_roundtrip_over", "sblk_roundtrip", "sblk_enc_bytes", "kvindex_roundtrip", "kv_roundtrip",
     "dbhdr_roundtrip_over", "dbhdr_roundtrip", "fsmhdr_roundtrip", "fsm_layout_total",
     "holds_after_writes", "node_roundtrip", "node_contents_roundtrip", "reopen_contents", "reopen_records", "reopen_db")]
+# C functions this check's models mirror (source-text fingerprints are recorded in the evidence, see translate/funchash.py)
+MODELLED_FUNCS = {'src/kv/iwkv.c': ['_sblk_sync_mm', '_sblk_at2', '_kvblk_sync_mm', '_kvblk_at_mm', '_db_save', '_db_at', '_db_load_chain', 'iwkv_open', 'iwkv_close'], 'src/fs/iwfsmfile.c': ['_fsm_write_meta_lw', '_fsm_read_meta_lr']}
 MANIFEST = dict(
     level="proof",
     text=("Reopen is modelled as 'read the closed file'. The writer side of the file format is written in Lean field by field "
